@@ -1,5 +1,6 @@
 import ColoVerif.Model.BusyIO
 import ColoVerif.Gen.Api
+import ColoVerif.Gen.ApiSizes
 import Driver.Common
 /-
 Driver for C10: replays the traces observed by harness/h_C10.cpp on the IR semantics
@@ -15,8 +16,17 @@ Driver for C10: replays the traces observed by harness/h_C10.cpp on the IR seman
   end                      -> of a nested call: recorded; of the outermost call: the lines of the trace
                               (setter lines, `end ok|throw inuse=<0|1>` of each nested call), then
                               `end ok|throw inuse=<0|1>`
+  szset <name> <busy> <free> <15 sizes> <args>
+                           -> `sz <outcome> <15 sizes>`: the setter on the size semantics (`Model/BusySizes.lean`
+                              over `Gen/ApiSizes.lean`); `free` = the length an `anyLen` write produces
 -/
-open ColoVerif ColoVerif.Busy ColoVerif.BusyIO ColoVerif.Gen Driver
+open ColoVerif ColoVerif.Busy ColoVerif.BusyIO ColoVerif.BusySizes ColoVerif.Gen Driver
+
+def szLine (name busy free : String) (rest : List String) : String :=
+  let n := reported.length + 1
+  let args := parseArgs rest.length (rest.drop n)
+  let r := runFnS ApiSizes.setters ⟨name, args, BusyIO.int! free⟩ ⟨busy == "1", Sz.ofList ((rest.take n).map BusyIO.int!)⟩
+  "sz " ++ showOutcome r.out ++ " " ++ " ".intercalate (r.st.sz.toList.map toString)
 
 structure DS where
   st : St := ⟨false, []⟩
@@ -65,6 +75,7 @@ def step (s : DS) : List String → DS × List String
           let r := runSetter Api.setters sc s.st
           ({ s with st := r.st }, [setterLine sc.name s.st r])
         | none => (s, ["bad-set"])
+      | "szset" :: name :: busy :: free :: rest => (s, [szLine name busy free rest])
       | _ => (s, ["bad-op " ++ " ".intercalate ws])
     else
       match ws with
